@@ -27,6 +27,8 @@ func main() {
 		cmdReplay(os.Args[2:])
 	case "obls":
 		cmdObls(os.Args[2:])
+	case "sweep":
+		cmdSweep(os.Args[2:])
 	case "prov":
 		cmdProv(os.Args[2:])
 	default:
